@@ -23,7 +23,7 @@ FAULTS = {
 # lines that are faulty but outside the property's list (reported as observations only)
 OUTSIDE = ['sw t0', 'align', 'li', 'mv t0', 'pack <Z 1', 'align 0']
 
-VALID_BEFORE = ['start:', '    addi x8, x8, 1', '    li t0, 0x12345', 'FOO = 7', '    call start', '    align 4', '    dw start', 'mid:']
+VALID_BEFORE = ['blob:', 'include_bytes blob.bin', '    align 4', 'start:', '    addi x8, x8, 1', '    li t0, 0x12345', 'FOO = 7', '    call start', '    align 4', '    dw start', 'mid:']
 VALID_AFTER = ['    align 4', '    li t1, 17', '    beqz x8, start', '    string ok', 'end:', '    j mid']
 
 
@@ -63,6 +63,7 @@ def run_all(ctx, tier, limit=None):
             work = tempfile.mkdtemp(prefix='p_', dir=d)
             for name, text in files.items():
                 open(os.path.join(work, name), 'w').write(text)
+            open(os.path.join(work, 'blob.bin'), 'wb').write(b'\x01\x02\x03\x04\x05')
             for compress in (False, True):
                 rs = r.assemble(os.path.join(work, top), compress=compress)
                 case = '%s|%s|%s|depth%d|c%d' % (cls, fault, pos, depth, int(compress))
